@@ -371,10 +371,10 @@ theorem assoc_some_mem {k v : Bytes} {l : List (Bytes × Bytes)} (h : assoc k l 
 
 /-- with no empty header values, "Get(key) != \"\"" is presence of the key -/
 theorem headerGet_ne_nil (hs : List (Bytes × Bytes)) (hne : ∀ kv ∈ hs, kv.2 ≠ []) (k : Bytes) :
-    (headerGet hs k != []) = hs.any (fun kv => kv.1 == k) := by
+    (headerGet hs k != []) = hs.any (fun kv => kv.1 == canonKey k) := by
   rw [← assoc_isSome]
   unfold headerGet
-  cases h : assoc k hs with
+  cases h : assoc (canonKey k) hs with
   | none => simp
   | some v =>
     have := hne _ (assoc_some_mem h)
@@ -699,7 +699,7 @@ theorem sEq_req_url_regmatch (o : Orc) (a0 a1 : Bytes) (fold : Bool) (r : Req) :
     specPrim o "req_url_regmatch" a0 a1 fold r = ( sRe o a0 (some r.uri)) := rfl
 
 theorem sEq_req_ua_regmatch (o : Orc) (a0 a1 : Bytes) (fold : Bool) (r : Req) :
-    specPrim o "req_ua_regmatch" a0 a1 fold r = ( sRe o a0 (assoc uaKey r.headers)) := rfl
+    specPrim o "req_ua_regmatch" a0 a1 fold r = ( sRe o a0 (assoc (canonKey uaKey) r.headers)) := rfl
 
 theorem sEq_req_query_exist (o : Orc) (a0 a1 : Bytes) (fold : Bool) (r : Req) :
     specPrim o "req_query_exist" a0 a1 fold r = ( some (r.query.length != 0)) := rfl
@@ -729,25 +729,25 @@ theorem sEq_req_query_value_hash_in (o : Orc) (a0 a1 : Bytes) (fold : Bool) (r :
     specPrim o "req_query_value_hash_in" a0 a1 fold r = ( specHash o a1 fold (assoc a0 r.query)) := rfl
 
 theorem sEq_req_header_key_in (o : Orc) (a0 a1 : Bytes) (fold : Bool) (r : Req) :
-    specPrim o "req_header_key_in" a0 a1 fold r = ( some ((patterns a0).any (fun k => r.headers.any (fun kv => kv.1 == k)))) := rfl
+    specPrim o "req_header_key_in" a0 a1 fold r = ( some ((patterns a0).any (fun k => r.headers.any (fun kv => kv.1 == canonKey k)))) := rfl
 
 theorem sEq_req_header_value_in (o : Orc) (a0 a1 : Bytes) (fold : Bool) (r : Req) :
-    specPrim o "req_header_value_in" a0 a1 fold r = ( some (attr (assoc a0 r.headers) (specIn a1 fold))) := rfl
+    specPrim o "req_header_value_in" a0 a1 fold r = ( some (attr (assoc (canonKey a0) r.headers) (specIn a1 fold))) := rfl
 
 theorem sEq_req_header_value_prefix_in (o : Orc) (a0 a1 : Bytes) (fold : Bool) (r : Req) :
-    specPrim o "req_header_value_prefix_in" a0 a1 fold r = ( some (attr (assoc a0 r.headers) (specPrefix a1 fold))) := rfl
+    specPrim o "req_header_value_prefix_in" a0 a1 fold r = ( some (attr (assoc (canonKey a0) r.headers) (specPrefix a1 fold))) := rfl
 
 theorem sEq_req_header_value_suffix_in (o : Orc) (a0 a1 : Bytes) (fold : Bool) (r : Req) :
-    specPrim o "req_header_value_suffix_in" a0 a1 fold r = ( some (attr (assoc a0 r.headers) (specSuffix a1 fold))) := rfl
+    specPrim o "req_header_value_suffix_in" a0 a1 fold r = ( some (attr (assoc (canonKey a0) r.headers) (specSuffix a1 fold))) := rfl
 
 theorem sEq_req_header_value_contain (o : Orc) (a0 a1 : Bytes) (fold : Bool) (r : Req) :
-    specPrim o "req_header_value_contain" a0 a1 fold r = ( some (attr (assoc a0 r.headers) (specContain a1 fold))) := rfl
+    specPrim o "req_header_value_contain" a0 a1 fold r = ( some (attr (assoc (canonKey a0) r.headers) (specContain a1 fold))) := rfl
 
 theorem sEq_req_header_value_regmatch (o : Orc) (a0 a1 : Bytes) (fold : Bool) (r : Req) :
-    specPrim o "req_header_value_regmatch" a0 a1 fold r = ( sRe o a1 (assoc a0 r.headers)) := rfl
+    specPrim o "req_header_value_regmatch" a0 a1 fold r = ( sRe o a1 (assoc (canonKey a0) r.headers)) := rfl
 
 theorem sEq_req_header_value_hash_in (o : Orc) (a0 a1 : Bytes) (fold : Bool) (r : Req) :
-    specPrim o "req_header_value_hash_in" a0 a1 fold r = ( specHash o a1 fold (assoc a0 r.headers)) := rfl
+    specPrim o "req_header_value_hash_in" a0 a1 fold r = ( specHash o a1 fold (assoc (canonKey a0) r.headers)) := rfl
 
 theorem sEq_req_cookie_key_in (o : Orc) (a0 a1 : Bytes) (fold : Bool) (r : Req) :
     specPrim o "req_cookie_key_in" a0 a1 fold r = ( some ((patterns a0).any (fun k => r.cookies.any (fun kv => kv.1 == k)))) := rfl
@@ -803,7 +803,7 @@ theorem sEq_res_code_in (o : Orc) (a0 a1 : Bytes) (fold : Bool) (r : Req) :
 
 theorem sEq_res_header_key_in (o : Orc) (a0 a1 : Bytes) (fold : Bool) (r : Req) :
     specPrim o "res_header_key_in" a0 a1 fold r = ( some (attr (r.resp.map fun _ => []) fun _ =>
-      (patterns a0).any (fun k => (r.resp.map (·.headers)).getD [] |>.any (fun kv => kv.1 == k)))) := rfl
+      (patterns a0).any (fun k => (r.resp.map (·.headers)).getD [] |>.any (fun kv => kv.1 == canonKey k)))) := rfl
 
 theorem sEq_res_header_value_in (o : Orc) (a0 a1 : Bytes) (fold : Bool) (r : Req) :
     specPrim o "res_header_value_in" a0 a1 fold r = ( some (attr (sRh r a0) (specIn a1 fold))) := rfl
@@ -1007,27 +1007,27 @@ end PrimEq
 section Present
 variable (o : Orc) (a0 a1 : Bytes) (fold : Bool) (r : Req)
 
-theorem eq_req_header_value_in (v : Bytes) (h : assoc a0 r.headers = some v) :
+theorem eq_req_header_value_in (v : Bytes) (h : assoc (canonKey a0) r.headers = some v) :
     matchPrim o "req_header_value_in" a0 a1 fold r = specPrim o "req_header_value_in" a0 a1 fold r := by
   rw [mEq_req_header_value_in, sEq_req_header_value_in]; simp only [headerGet, queryGet, h, Option.getD_some, attr, inM_eq_spec]
 
-theorem eq_req_header_value_prefix_in (v : Bytes) (h : assoc a0 r.headers = some v) :
+theorem eq_req_header_value_prefix_in (v : Bytes) (h : assoc (canonKey a0) r.headers = some v) :
     matchPrim o "req_header_value_prefix_in" a0 a1 fold r = specPrim o "req_header_value_prefix_in" a0 a1 fold r := by
   rw [mEq_req_header_value_prefix_in, sEq_req_header_value_prefix_in]; simp only [headerGet, queryGet, h, Option.getD_some, attr, prefixM_eq_spec]
 
-theorem eq_req_header_value_suffix_in (v : Bytes) (h : assoc a0 r.headers = some v) :
+theorem eq_req_header_value_suffix_in (v : Bytes) (h : assoc (canonKey a0) r.headers = some v) :
     matchPrim o "req_header_value_suffix_in" a0 a1 fold r = specPrim o "req_header_value_suffix_in" a0 a1 fold r := by
   rw [mEq_req_header_value_suffix_in, sEq_req_header_value_suffix_in]; simp only [headerGet, queryGet, h, Option.getD_some, attr, suffixM_eq_spec]
 
-theorem eq_req_header_value_contain (v : Bytes) (h : assoc a0 r.headers = some v) :
+theorem eq_req_header_value_contain (v : Bytes) (h : assoc (canonKey a0) r.headers = some v) :
     matchPrim o "req_header_value_contain" a0 a1 fold r = specPrim o "req_header_value_contain" a0 a1 fold r := by
   rw [mEq_req_header_value_contain, sEq_req_header_value_contain]; simp only [headerGet, queryGet, h, Option.getD_some, attr, containM_eq_spec]
 
-theorem eq_req_header_value_regmatch (v : Bytes) (h : assoc a0 r.headers = some v) :
+theorem eq_req_header_value_regmatch (v : Bytes) (h : assoc (canonKey a0) r.headers = some v) :
     matchPrim o "req_header_value_regmatch" a0 a1 fold r = specPrim o "req_header_value_regmatch" a0 a1 fold r := by
   rw [mEq_req_header_value_regmatch, sEq_req_header_value_regmatch]; simp only [headerGet, queryGet, h, Option.getD_some, mRe, sRe, attr, onStr]
 
-theorem eq_req_header_value_hash_in (v : Bytes) (h : assoc a0 r.headers = some v) :
+theorem eq_req_header_value_hash_in (v : Bytes) (h : assoc (canonKey a0) r.headers = some v) :
     matchPrim o "req_header_value_hash_in" a0 a1 fold r = specPrim o "req_header_value_hash_in" a0 a1 fold r := by
   rw [mEq_req_header_value_hash_in, sEq_req_header_value_hash_in]; simp only [headerGet, queryGet, h, Option.getD_some, mHash, specHash, attr, onStr, hashM]
 
@@ -1055,10 +1055,10 @@ theorem eq_req_query_value_hash_in (v : Bytes) (h : assoc a0 r.query = some v) :
     matchPrim o "req_query_value_hash_in" a0 a1 fold r = specPrim o "req_query_value_hash_in" a0 a1 fold r := by
   rw [mEq_req_query_value_hash_in, sEq_req_query_value_hash_in]; simp only [headerGet, queryGet, h, Option.getD_some, mHash, specHash, attr, onStr, hashM]
 
-theorem eq_req_ua_regmatch (v : Bytes) (h : assoc uaKey r.headers = some v) :
+theorem eq_req_ua_regmatch (v : Bytes) (h : assoc (canonKey uaKey) r.headers = some v) :
     matchPrim o "req_ua_regmatch" a0 a1 fold r = specPrim o "req_ua_regmatch" a0 a1 fold r := by
   rw [mEq_req_ua_regmatch, sEq_req_ua_regmatch]; simp only [headerGet, h, Option.getD_some, mRe, sRe, attr, onStr]
-theorem eq_res_header_value_in (hp : ∀ p, r.resp = some p → (assoc a0 p.headers).isSome) :
+theorem eq_res_header_value_in (hp : ∀ p, r.resp = some p → (assoc (canonKey a0) p.headers).isSome) :
     matchPrim o "res_header_value_in" a0 a1 fold r = specPrim o "res_header_value_in" a0 a1 fold r := by
   rw [mEq_res_header_value_in, sEq_res_header_value_in]
   unfold rhdrF sRh
@@ -1066,7 +1066,7 @@ theorem eq_res_header_value_in (hp : ∀ p, r.resp = some p → (assoc a0 p.head
   | none => rfl
   | some p =>
     have := hp p hr
-    cases hv : assoc a0 p.headers with
+    cases hv : assoc (canonKey a0) p.headers with
     | none => rw [hv] at this; cases this
     | some v => simp [headerGet, hv, onStr, attr, inM_eq_spec]
 end Present
@@ -1081,5 +1081,57 @@ theorem mIpRange_none (o : Orc) (a0 a1 : Bytes) : mIpRange o a0 a1 none ≠ some
     by_cases h1 : (isV4 s != isV4 e) = true
     · simp [h1]
     · by_cases h2 : bytesLt e s = true <;> simp [h1, h2]
+
+/-! ### header names: Header.Get is case-insensitive -/
+def canon1 (up : Bool) (c : UInt8) : UInt8 :=
+  if up && (97 ≤ c && c ≤ 122) then c - 32 else if !up && (65 ≤ c && c ≤ 90) then c + 32 else c
+
+theorem canonLoop_cons (up : Bool) (c : UInt8) (rest : Bytes) :
+    canonLoop up (c :: rest) = canon1 up c :: canonLoop (c == 45) rest := rfl
+
+set_option maxRecDepth 8000 in
+theorem canon1_lower_t : ∀ c : UInt8, canon1 true c = canon1 true (lower1 c) := all_u8 _ (by decide)
+set_option maxRecDepth 8000 in
+theorem canon1_lower_f : ∀ c : UInt8, canon1 false c = canon1 false (lower1 c) := all_u8 _ (by decide)
+set_option maxRecDepth 8000 in
+theorem dash_lower : ∀ c : UInt8, (c == 45) = (lower1 c == 45) := all_u8 _ (by decide)
+set_option maxRecDepth 8000 in
+theorem token_lower : ∀ c : UInt8, tokenByte c = tokenByte (lower1 c) := all_u8 _ (by decide)
+
+theorem canon1_lower (up : Bool) (c : UInt8) : canon1 up c = canon1 up (lower1 c) := by
+  cases up
+  · exact canon1_lower_f c
+  · exact canon1_lower_t c
+
+theorem eqv_true_cons (a b : UInt8) (as bs : Bytes) :
+    eqv true (a :: as) (b :: bs) = true ↔ lower1 a = lower1 b ∧ eqv true as bs = true := by
+  simp [eqv]
+
+theorem canonLoop_fold (k k' : Bytes) (h : eqv true k k' = true) : ∀ up, canonLoop up k = canonLoop up k' := by
+  induction k generalizing k' with
+  | nil => cases k' with
+    | nil => intro _; rfl
+    | cons _ _ => simp [eqv] at h
+  | cons c cs ih =>
+    cases k' with
+    | nil => simp [eqv] at h
+    | cons d ds =>
+      rw [eqv_true_cons] at h
+      intro up
+      rw [canonLoop_cons, canonLoop_cons, canon1_lower up c, canon1_lower up d, h.1, dash_lower c, dash_lower d, h.1,
+        ih ds h.2]
+
+theorem allToken_fold (k k' : Bytes) (h : eqv true k k' = true) : k.all tokenByte = k'.all tokenByte := by
+  induction k generalizing k' with
+  | nil => cases k' with
+    | nil => rfl
+    | cons _ _ => simp [eqv] at h
+  | cons c cs ih =>
+    cases k' with
+    | nil => simp [eqv] at h
+    | cons d ds =>
+      rw [eqv_true_cons] at h
+      simp only [List.all_cons]
+      rw [token_lower c, token_lower d, h.1, ih ds h.2]
 
 end BfeVerif.C18
